@@ -100,3 +100,19 @@ Theorem C01_archive_order_irrelevant : forall o t ns,
   fold_left (arch_step o) ns t = archive o t.
 Proof. exact archive_order_irrelevant. Qed.
 Print Assumptions C01_archive_order_irrelevant.
+
+(* "...only after every URL in its tree (the seed, its REDIRECT TARGETS and its embedded assets)...": a 3xx answer
+   with redirects left always puts its target into the tree - whatever the node's depth, its MIME type, the asset
+   capture and domains-crawl settings (the post-processor looks at the redirect before any of its "nothing more to
+   do here" rules); at the limit the node is completed instead. *)
+From ZenoV Require Import Stage.RedirectFollowed.
+Theorem C01_redirect_always_followed : forall c o dwr1 n t next r,
+  st_of n = Archived -> o_fetch o (id_of n) = Some r -> r_redirect r = true ->
+  (nredir (inf n) < max_redirect c)%N ->
+  post_item c o dwr1 n (t, next) =
+    match add_child (id_of n) (new_child next (r_loc r) (nhops (inf n)) (nredir (inf n) + 1)%N false) GotRedirected t with
+    | Some t' => (t', (next + 1)%N)
+    | None => (t, next)
+    end.
+Proof. exact post_item_follows_redirect. Qed.
+Print Assumptions C01_redirect_always_followed.
